@@ -151,11 +151,10 @@ def applyOrder (h : Heap) (fs : List (String × Nat)) : List (String × Nat) :=
 def declaredVariants (F : Facts15) (attrs : Option Kw) : Option (Option (List Nat)) :=
   if (match attrs with | some _ => F.varRuleX | none => F.varRule) == .ownPerClass then some none else none
 
-def subclassOp (F : Facts15) (base : Option Nat) (name : String) (ns : Option String)
+/-- the class statement once its base class and `__extends__` are known -/
+def subclassRest (F : Facts15) (b : Nat) (bc : Cls) (ext : Option Nat) (name : String) (ns : Option String)
     (fields : List (String × Nat)) (perm : List Nat) (attrs : Option Kw) (mixins : List Nat) (asMixin : Bool) :
     M Nat := do
-  let bc ← getCls (base.getD F.complexRoot)
-  let ext ← liftExcept (subclassExtends (base.getD F.complexRoot) bc)
   let h ← getHeap
   -- `_gen_attrs`: the Attributes of the first base in the bases tuple (mixins are listed first)
   let first := match mixins.head? with
@@ -163,17 +162,29 @@ def subclassOp (F : Facts15) (base : Option Nat) (name : String) (ns : Option St
     | none => bc
   guardNone (if mixins.all (fun m => match h.cls[m]? with | some mc => mc.mixin && mc.kind == .complex | none => false)
              then none else some "Exception")
-  -- (an explicit body is `class Attributes(Base.Attributes)`, a generated one derives from the first base's)
   -- (in a class body `nullable` and `nillable` are the same assignment: AttributesMeta.__init__)
-  allocBoth { own := ((attrs.getD []).map (fun p => if p.1 == "nullable" then ("nillable", p.2) else p)).reverse, parent := some (match attrs with | some _ => bc.attrs | none => first.attrs),
-              variants := declaredVariants F attrs,
-              dca := none, dcaa := none }
+  -- (an explicit body is `class Attributes(Base.Attributes)`, a generated one derives from the first base's)
+  let rec0 : AttrRec :=
+    { own := ((attrs.getD []).map (fun p => if p.1 == "nullable" then ("nillable", p.2) else p)).reverse,
+      parent := some (match attrs with | some _ => bc.attrs | none => first.attrs),
+      variants := declaredVariants F attrs, dca := none, dcaa := none }
+  let n ← allocBoth rec0
     (fun a => { kind := .complex, attrs := a,
                 fields := applyOrder h (prependMixins F (mixinFields h mixins) (declaredFields F perm fields)),
                 orig := none, ext := ext,
                 tn := some name, ns := match ns with | some n => some n | none => first.ns,
-                modNs := "c15hist", pybase := some (base.getD F.complexRoot), target := none, mixin := asMixin,
+                modNs := "c15hist", pybase := some b, target := none, mixin := asMixin,
                 lo := none, hi := none })
+  -- the new class is a subclass of the class it extends
+  regSub ext n
+  pure n
+
+def subclassOp (F : Facts15) (base : Option Nat) (name : String) (ns : Option String)
+    (fields : List (String × Nat)) (perm : List Nat) (attrs : Option Kw) (mixins : List Nat) (asMixin : Bool) :
+    M Nat := do
+  let bc ← getCls (base.getD F.complexRoot)
+  let ext ← liftExcept (subclassExtends (base.getD F.complexRoot) bc)
+  subclassRest F (base.getD F.complexRoot) bc ext name ns fields perm attrs mixins asMixin
 
 /-! ## `append_field` / `insert_field` (complex.py:1285-1344) -/
 
@@ -295,6 +306,11 @@ def runOps (F : Facts15) (fuel : Nat) (h : Heap) : List Op → Heap
 def touched (F : Facts15) (h : Heap) : Op → List Nat
   | .append c _ _ => c :: variantsOf h c
   | .insert c _ _ _ => c :: variantsOf h c
+  -- a class statement adds the new class to the `_subclasses` of the class it extends
+  | .subclass base _ _ _ _ _ _ _ =>
+    (match h.cls[base.getD F.complexRoot]? with
+     | some bc => (match subclassExtends (base.getD F.complexRoot) bc with | .ok (some e) => [e] | _ => [])
+     | none => [])
   | .mandatory src => if F.mandRule == .mutatesOriginal then [src] else []
   | _ => []
 
@@ -383,6 +399,8 @@ structure Obs1 where
   target : Option Nat
   /-- resolved `sqla_column_args[-1]` (`none` = `sqla_column_args is None`) -/
   col : Option Kw
+  /-- own `_subclasses` (declared classes) -/
+  subs : Option (List Nat)
   deriving DecidableEq, Repr
 
 def obs1 (F : Facts15) (h : Heap) (c : Nat) : Option Obs1 :=
@@ -391,14 +409,14 @@ def obs1 (F : Facts15) (h : Heap) (c : Nat) : Option Obs1 :=
   | some cl => some
     { kind := cl.kind, attrs := F.keys.filterMap (fun k => (attrAt h cl.attrs k).map (fun v => (k, v))),
       verd := verdicts h cl, fields := cl.fields, orig := cl.orig, ext := cl.ext, tn := cl.tn, ns := cl.ns,
-      target := cl.target, col := (colH h cl.attrs).map (·.2) }
+      target := cl.target, col := (colH h cl.attrs).map (·.2), subs := cl.subs }
 
 /-- deep, identity-free snapshot -/
 inductive Obs where
   | missing
   | node (kind : Kind) (tn : Option String) (ns : Option String) (attrs : Kw) (verd : List Bool)
       (orig : Option (Option String)) (fields : List (String × Obs)) (ext : Option Obs) (flat : List String)
-      (col : Option Kw)
+      (col : Option Kw) (subs : Option (List (Option String)))
 
 /-- type name of a class (of the original, in a snapshot) -/
 def tnOf (h : Heap) (r : Nat) : Option String :=
@@ -424,5 +442,6 @@ def deepObs (F : Facts15) : Nat → Heap → Nat → Obs
         (o.ext.map (fun e => deepObs F fuel h e))
         (if o.kind.isComplex then flatKeysF (fuel + 1) h c else [])
         o.col
+        (o.subs.map (fun l => l.map (tnOf h)))
 
 end SpyneModel.Derive
